@@ -164,6 +164,13 @@ func (h *H) runCase(c *Case, toCoq, forceOracle bool) *outcome {
 			h.cw.Add(fmt.Sprintf("VC %s %s %s", kindOf(c.Driver), coqDecls(rawDecls), vh.CoqBool(out.accepted)),
 				map[string]interface{}{"case": c, "accepted": out.accepted, "validation_error": fmt.Sprint(err)})
 			h.toCoq++
+			if out.accepted && h.toCoq%4 == 0 {
+				// the min/max as written into the schema, resolved by the extracted rules
+				h.cw.Add(fmt.Sprintf("OC %d %s %s", map[string]int{"csv2": 0, "fixedlength2": 1, "edi": 2}[c.Driver], coqRawOcc(c.Driver, rawDecls, c.Omit), coqDecls(rawDecls)),
+					map[string]interface{}{"case": c, "occurs": "min/max as written vs resolved"})
+				h.toCoq++
+				h.sum.Hist("occurs-resolution-case")
+			}
 		}
 		if !out.accepted {
 			return out
@@ -199,7 +206,7 @@ func (h *H) runCase(c *Case, toCoq, forceOracle bool) *outcome {
 	// a raw-text corpus case on which the tokenizer loses a unit (F8) is outside the unit-level model
 	if toCoq && !(c.RawHex != "" && out.oracle != "") {
 		dl, tm := coqResult(impl)
-		h.cw.Add(fmt.Sprintf("HC (mkHCase %s %s %s %s %s %s %s)", kindOf(c.Driver), coqDecls(rawDecls), coqUnits(c.Units), coqRej(c), dl, tm, vh.CoqBool(out.guard)),
+		h.cw.Add(fmt.Sprintf("HC (mkHCase %s %s %s %s %s %s %s %s)", kindOf(c.Driver), coqDecls(rawDecls), coqUnits(c.Units), coqRej(c), dl, tm, vh.CoqBool(out.guard), vh.CoqBool(inGuard(eff) && c.RawHex == "")),
 			map[string]interface{}{"case": c, "observed": impl, "greedy_matcher": out.spec, "in_guard": out.guard})
 		h.toCoq++
 	}
@@ -557,7 +564,7 @@ func main() {
 		b, _ := os.ReadFile(f)
 		_ = json.Unmarshal(b, &seq)
 		h.sum = vh.NewSummary("C05", o, "")
-		h.cw = vh.NewCaseWriter(o, "C05seq", "Model.Hier Model.HierSpec", "c05case", "check_case")
+		h.cw = vh.NewCaseWriter(o, "C05seq", "Model.Hier Model.HierSpec Model.HierOcc", "c05case", "check_case")
 		for i := range seq {
 			h.runCase(&seq[i], false, true)
 		}
@@ -565,7 +572,7 @@ func main() {
 	}
 	h.sum = vh.NewSummary("C05", o,
 		"(implementation, declaration hierarchy, unit word) triples; non-trivial = the word drives at least one pop of the stack (an occurrence loop of some declaration completes and a sibling/parent continues) or a delivery; distinct by (driver, declarations, word)")
-	h.cw = vh.NewCaseWriter(o, "C05", "Model.Hier Model.HierSpec", "c05case", "check_case")
+	h.cw = vh.NewCaseWriter(o, "C05", "Model.Hier Model.HierSpec Model.HierOcc", "c05case", "check_case")
 
 	if o.Replay != "" {
 		h.replay(o.Replay)
@@ -592,7 +599,10 @@ func main() {
 			}
 			eff := effective("edi", ds)
 			if !noRootRepeat(eff, goSpec(eff, us), us) {
-				h.sum.Hist("edi:skipped-outside-no_root_repeat")
+				// F14 class: outside the documented behaviour (no Go oracle), but the model and the
+				// repeated-top-level characterisation spec_repeat are compared with what is observed
+				h.sum.Hist("edi:root-repeat-class(spec_repeat only)")
+				h.generated(c, true)
 				return
 			}
 		}
@@ -749,6 +759,14 @@ func main() {
 			h.generated(&Case{Driver: drv, Decls: ds, Units: us, Release: r.Pick(3), Omit: r.Chance(0.5)}, coqEvery(4))
 		} else {
 			fmtTick = 2
+			if r.Chance(0.25) {
+				// the word twice: the top-level sequence starts again (F14 class: spec_repeat only)
+				us2 := append(append([]Unit(nil), us...), us...)
+				for k := range us2 {
+					us2[k].ID = k + 1
+				}
+				us = us2
+			}
 			viaFormat(ds, us, coqEvery(4))
 		}
 	}
@@ -760,7 +778,7 @@ func main() {
 	var longs []*Case
 	for i := 0; i < nlong; i++ {
 		c := genLong(r, []string{"fixedlength2", "csv2"}[i%2], i/2%64, i/2%5)
-		h.generated(c, i%12 == 0)
+		h.generated(c, i%12 == 0 && i < 96) // few long cases go to Coq: a case file with dozens of them needs gigabytes to parse
 		h.sum.Hist("long-input")
 		longs = append(longs, c)
 		if len(longs) >= 3 && i%6 == 5 {
@@ -779,7 +797,7 @@ func main() {
 			drv = "csv2"
 		}
 		c := genDirected(r, drv, i%5, i/5)
-		h.generated(c, i%10 == 0)
+		h.generated(c, i%10 == 0 && i < 60)
 		h.sum.Hist("directed-refill-input")
 	}
 
@@ -803,7 +821,7 @@ func main() {
 	var edis []*Case
 	for i := 0; i < nedi; i++ {
 		c := genEdiLong(r)
-		h.generated(c, i%6 == 0)
+		h.generated(c, i%6 == 0 && i < 300)
 		h.sum.Hist("edi-long-input")
 		edis = append(edis, c)
 		if n := len(edis); n >= 3 && i%2 == 1 {
